@@ -472,6 +472,8 @@ func findPlan(id string) *PropertyPlan {
 	return nil
 }
 
+var harnessSelftest string
+
 type evidence struct {
 	PropertyID  string         `json:"property_id"`
 	Tier        string         `json:"tier"`
@@ -513,8 +515,47 @@ func runProperty(plan *PropertyPlan, tier string, seed uint64, par int, scale fl
 		famRuns[fam.Name] = len(outs)
 		all = append(all, outs...)
 	}
+	// thorough: determinism self-test of this property's simulated families
+	selftest := map[string]any{}
+	if tier == "thorough" && os.Getenv("VERIF_NO_SELFTEST") == "" {
+		mism, total := 0, 0
+		for _, fam := range plan.Families {
+			if fam.Race || strings.HasPrefix(fam.Name, "rt.") || fam.Name == "c14" || fam.Name == "c14crash" || fam.Name == "c18walk" {
+				continue
+			}
+			ref := map[uint64]string{}
+			for _, procs := range []string{"1", "4", "16"} {
+				for rep := 0; rep < 2; rep++ {
+					n := 8
+					if fam.Chunk <= 2 {
+						n = 3
+					}
+					outs := runSeeds(bins[false], FamilyPlan{Name: fam.Name, Chunk: 4, SeedTimeout: fam.SeedTimeout}, "quick", 777001, n, par, []string{"GOMAXPROCS=" + procs})
+					for _, o := range outs {
+						if o.res == nil || o.res.Hash == "" {
+							continue
+						}
+						total++
+						if h, ok := ref[o.seed]; ok && h != o.res.Hash {
+							mism++
+							fmt.Fprintf(os.Stderr, "simcheck: NONDETERMINISM family=%s seed=%d GOMAXPROCS=%s\n", fam.Name, o.seed, procs)
+						} else if !ok {
+							ref[o.seed] = o.res.Hash
+						}
+					}
+				}
+			}
+		}
+		selftest["executions_compared"] = total
+		selftest["mismatches"] = mism
+		selftest["method"] = "each seed of each simulated family executed 6 times (GOMAXPROCS 1/4/16 x 2 processes), event-log hashes compared"
+		if mism > 0 {
+			harnessSelftest = fmt.Sprintf("determinism self-test: %d mismatches in %d executions", mism, total)
+		}
+	}
 	// aggregate
 	cov := map[string]any{}
+	cov["determinism_selftest"] = selftest
 	faults := map[string]int{}
 	probes := map[string]int{}
 	states := map[string]bool{}
@@ -636,6 +677,9 @@ func runProperty(plan *PropertyPlan, tier string, seed uint64, par int, scale fl
 	sort.Strings(keys)
 	for _, k := range keys {
 		fmt.Printf("KNOWN-FINDING: property=%s %s (seen in %d runs)\n", plan.ID, knownWhat[k].What, knownSeen[k])
+	}
+	if harnessSelftest != "" {
+		harness = append(harness, harnessSelftest)
 	}
 	if len(harness) > 0 {
 		for i, h := range harness {
